@@ -154,7 +154,7 @@ mutual
       else unescapeEnt (c :: acc) cs
 end
 
-/-! ## scalar text forms (`utils/format.rs`, `atoi`) -/
+/-! ## scalar text forms (`utils/format.rs`, `xml/de.rs::parse_integer`) -/
 
 def fmtInt (i : Int) : Bytes :=
   if i < 0 then 45 :: fmtDec i.natAbs else fmtDec i.toNat
@@ -162,20 +162,24 @@ def fmtInt (i : Int) : Bytes :=
 def fmtBool (b : Bool) : Bytes :=
   if b then [116, 114, 117, 101] else [102, 97, 108, 115, 101]
 
-/-- `atoi::atoi::<iN>`: optional sign, then the longest run of digits; trailing bytes are ignored;
-`None` when nothing was consumed (no sign and no digit) or the value does not fit. `"-"` alone is `Some(0)`. -/
-def atoi (lo hi : Int) (t : Bytes) : Option Int :=
-  let (neg, signLen, body) :=
-    match t with
-    | 43 :: r => (false, 1, r)
-    | 45 :: r => (true, 1, r)
-    | _ => (false, 0, t)
-  let digits := body.takeWhile isDigit
-  if signLen + digits.length = 0 then none
+/-- `parse_integer::<iN>` of `xml/de.rs` = `str::from_utf8(bytes).ok()?.parse::<iN>().ok()`: the *whole* text is an
+optional single `+` / `-` followed by at least one ASCII digit, and the value fits (`iN::from_str`). No white
+space, no trailing bytes. (Until commit 7ec6a52 this was the lenient prefix parse `atoi::atoi`; see finding
+F-xml-6, fixed.) A non-UTF-8 text contains a non-digit byte and is refused either way. -/
+def parseIntBody (lo hi : Int) (neg : Bool) (body : Bytes) : Option Int :=
+  if body = [] then none
   else
-    let mag : Int := ((digitsVal digits 0).getD 0 : Nat)
-    let v := if neg then -mag else mag
-    if lo ≤ v ∧ v ≤ hi then some v else none
+    match digitsVal body 0 with
+    | none => none
+    | some n =>
+      let v : Int := if neg then -(n : Int) else (n : Int)
+      if lo ≤ v ∧ v ≤ hi then some v else none
+
+def parseInt (lo hi : Int) (t : Bytes) : Option Int :=
+  match t with
+  | 43 :: r => parseIntBody lo hi false r
+  | 45 :: r => parseIntBody lo hi true r
+  | _ => parseIntBody lo hi false t
 
 def i32Min : Int := -2147483648
 def i32Max : Int := 2147483647
@@ -235,7 +239,7 @@ def textOf (evs : List Ev) : R Bytes :=
   | [] => .error .unexpectedEof
 
 /-- `Deserializer::for_each_element`, the callback `f d name` threading an accumulator. One iteration consumes at
-least the start event, so `fuel = number of events` is never exhausted (`forEach_fuel`). -/
+least the start event, so `fuel = number of events + 1` is never exhausted. -/
 def forEach {α : Type} (f : Bytes → List Ev → α → R α) : Nat → List Ev → α → R α
   | 0, _, _ => .error .invalidXml -- unreachable with fuel ≥ length
   | fuel + 1, evs, acc =>
@@ -262,8 +266,8 @@ def decodeStr (raw : Bytes) : Except DeErr Bytes :=
 
 def decodeScalarText (X : Ext) : Sch → Bytes → Except DeErr Val
   | .str, raw | .enm, raw => (decodeStr raw).map .str
-  | .i32, raw => match atoi i32Min i32Max raw with | some i => .ok (.int i) | none => .error .invalidContent
-  | .i64, raw => match atoi i64Min i64Max raw with | some i => .ok (.int i) | none => .error .invalidContent
+  | .i32, raw => match parseInt i32Min i32Max raw with | some i => .ok (.int i) | none => .error .invalidContent
+  | .i64, raw => match parseInt i64Min i64Max raw with | some i => .ok (.int i) | none => .error .invalidContent
   | .bool, raw => match parseBool raw with | some b => .ok (.bool b) | none => .error .invalidContent
   | .ts f, raw =>
     if isAscii raw then
@@ -339,6 +343,14 @@ def Flds.isNil : Flds → Bool
   | .nil => true
   | _ => false
 
+/-- the callback of `Deserializer::list_content(m)`: every child must be named `m`; its content is pushed -/
+def listItem (dec : List Ev → R Val) (m : Bytes) (name : Bytes) (evs : List Ev) (l : List Val) : R (List Val) :=
+  if name = m then
+    match dec evs with
+    | .error e => .error e
+    | .ok (v, r) => .ok (l ++ [v], r)
+  else .error .unexpectedTagName
+
 def isScalar : Sch → Bool
   | .struct _ | .union _ => false
   | _ => true
@@ -349,7 +361,7 @@ mutual
     | .struct fs, evs =>
       if fs.isNil then .ok (.struct [], evs)   -- `Ok(Self {})`: `for_each_element` is not even called
       else
-        match forEach (fun name evs acc => decodeField X fs name evs acc) evs.length evs fs.emptyAcc with
+        match forEach (fun name evs acc => decodeField X fs name evs acc) (evs.length + 1) evs fs.emptyAcc with
         | .error e => .error e
         | .ok (acc, rest) =>
           match fs.finish acc with
@@ -393,12 +405,7 @@ mutual
           | .wrapped m =>
             if slot.isAbsent then
               -- `d.list_content(m)`
-              match forEach (fun name evs (l : List Val) =>
-                      if name = m then
-                        match decode X s evs with
-                        | .error e => .error e
-                        | .ok (v, r) => .ok (l ++ [v], r)
-                      else .error .unexpectedTagName) evs.length evs [] with
+              match forEach (listItem (fun evs => decode X s evs) m) (evs.length + 1) evs [] with
               | .error e => .error e
               | .ok (l, r) => .ok (.many l :: accRest, r)
             else .error .duplicateField
@@ -482,7 +489,7 @@ def decodeDoc (X : Ext) (root : DeRoot) (s : Sch) (evs : List Ev) : Except DeErr
                   | .error e => .error e
                   | .ok b => .ok (.one (.str b), r)
               else .error .duplicateField
-            else .error .unexpectedTagName) evs.length evs .absent with
+            else .error .unexpectedTagName) (evs.length + 1) evs .absent with
     | .error e => .error e
     | .ok (acc, r) =>
       match expectEof r with
